@@ -48,6 +48,15 @@ def long_runs(ck, runs, max_limit, first=0, tag="long"):
     return n
 
 
+def counted_runs(ck, depths, tag="counted"):
+    """millions of steps with a closed-form step count (TraceBounds: Steps(d) = 5 * 2^d - 3)"""
+    path = os.path.join(ck.work, f"{tag}.ndjson")
+    ck.harness(["vm-counted", "--depths", ",".join(map(str, depths)), "--out", path], timeout=1800)
+    ck.validate_runs("vm/TraceBounds_PushVM", "vm/TraceBounds_PushVM.cfg", path, sig_long, what_long,
+                     regen=lambda ev: {"counted": True, "depths": depths})
+    return sum(1 for _ in open(path))
+
+
 def run(ck):
     q = ck.tier == "quick"
     # extreme numerics: every instruction on every boundary operand tuple must return
@@ -56,6 +65,7 @@ def run(ck):
     rres, rsumm = vmcheck.mc_run(ck)
     stats, instrs = vmcheck.tv(ck, runs_quick=300, runs_thorough=8000)
     n = long_runs(ck, 300 if q else 4000, 20000 if q else 100000)
+    n += counted_runs(ck, [0, 1, 5, 12, 18, 22] if q else [0, 1, 2, 3, 8, 14, 19, 21, 22, 23, 24])
     ck.cov["evaluations"] = ssumm["cases"] + rsumm["cases"] + stats["events"] + n
     ck.cov["distinct_nontrivial"] = rsumm["cases"]
     ck.cov["rule"] = ("MC_PushRun behaviours (program x stack limit x step count), distinct by "
@@ -72,6 +82,9 @@ def run(ck):
 
 
 def replay(ck, obj):
+    if obj.get("regen", {}).get("counted"):
+        counted_runs(ck, obj["regen"]["depths"], tag="one-counted")
+        return
     if obj["kind"] == "long":
         r = obj["regen"]
         long_runs(ck, 1, r["max_limit"], first=r["run"], tag="one-long")
